@@ -57,6 +57,7 @@ func mayAliasTxBuffer(v ssa.Value, depth int) bool {
 }
 
 func c04(c *Ctx) {
+	c04BulkBufferIndexInRange(c, "C04.11/bulk-buffer-index-in-range")
 	c04ScansFilterDeadEntries(c, "C04.10/scans-filter-dead-entries")
 	f := c.mustFn("C04/indexSince", idxT+"indexSince")
 	if f != nil {
@@ -739,5 +740,61 @@ func c04ScansFilterDeadEntries(c *Ctx, r string) {
 	}
 	if n < 3 {
 		c.undecided(r, "floor", fmt.Sprintf("%d key readers opened by pkg/database found (Scan, ZScan, Count confirmed by hand)", n))
+	}
+}
+
+// c04BulkBufferIndexInRange: the indexer prepares a bulk in a pre-allocated slice of entries, one per transaction entry.
+// A transaction can yield MORE index entries than it has entries (an injective mapping also writes the deletion of the key
+// the entry was mapped to before), so an element is addressed only where its index was compared with the length of the
+// slice first (the accessor that grows it). An out-of-range index panics in the indexing goroutine: the process dies.
+func c04BulkBufferIndexInRange(c *Ctx, r string) {
+	n := 0
+	for _, f := range c.allFns {
+		if !fnInPkgs(f, []string{"embedded/store"}) || len(f.Blocks) == 0 {
+			continue
+		}
+		k := 0
+		allInstrs(f, false, func(in ssa.Instruction) {
+			ia, ok := in.(*ssa.IndexAddr)
+			if !ok {
+				return
+			}
+			ld, ok := ia.X.(*ssa.UnOp)
+			if !ok || ld.Op != token.MUL {
+				return
+			}
+			if fl, _ := fieldOf(ld.X); fl != "indexer._kvs" {
+				return
+			}
+			if _, isConst := ia.Index.(*ssa.Const); isConst {
+				return
+			}
+			k++
+			n++
+			// a comparison of the index with len(...) on an edge dominating the access
+			guarded := false
+			di := desc(ia.Index)
+			for _, b := range f.Blocks {
+				if len(b.Instrs) == 0 {
+					continue
+				}
+				ifi, ok := b.Instrs[len(b.Instrs)-1].(*ssa.If)
+				if !ok {
+					continue
+				}
+				atom, _ := normCond(ifi.Cond)
+				if !strings.Contains(atom, " < ") || !strings.Contains(atom, "len(") || !strings.Contains(atom, "_kvs") || !strings.Contains(atom, di) {
+					continue
+				}
+				if edgeDominates(b, 0, in.Block()) || edgeDominates(b, 1, in.Block()) {
+					guarded = true
+				}
+			}
+			c.check(guarded, r, fmt.Sprintf("%s:_kvs[%s]#%d", fnName(f), "i", k), c.pos(in.Pos()), "the index was compared with the length of the bulk buffer",
+				"an element of the pre-allocated bulk buffer is addressed without comparing the index with its length: a transaction yielding more index entries than it has entries (injective mapping: new key + deletion of the previous one) makes the indexing goroutine panic")
+		})
+	}
+	if n < 1 {
+		c.undecided(r, "floor", "no indexed access to the indexer's bulk buffer found")
 	}
 }
